@@ -138,7 +138,9 @@ Inductive snapexp := SnapOk (cols : list string) (rows : list (string * list (op
 Inductive expexp := ExpOk (cols : list (string * list float)) | ExpErr (e : exn).
 Inductive repcall :=
   | RSnap (times : list (qty FX)) (els : list (@erec FX)) (req : option (list string)) (us : units) (target : qty FX) (e : snapexp)
-  | RExport (times : list (qty FX)) (el : @erec FX) (us : units) (e : expexp).
+  | RExport (times : list (qty FX)) (el : @erec FX) (us : units) (e : expexp)
+  (* Powertrain.export_time_variables: the files gearpy wrote (name, table) in element order and the exception class if it raised *)
+  | RExportAll (times : list (qty FX)) (els : list (@erec FX)) (us : units) (files : list (string * list (string * list float))) (err : option exn).
 Definition ofl_eqb (a : option float) (b : option float) : bool :=
   match a, b with None, None => true | Some x, Some y => fbits_eq x y | _, _ => false end.
 Fixpoint ofls_eqb (a b : list (option float)) : bool :=
@@ -156,6 +158,20 @@ Definition repcall_code (c : repcall) : N :=
       | Ok (cols, rows), SnapOk cols' rows' => if negb (strs_eqb cols cols') then 1%N else if rows_eqb rows rows' then 0%N else 2%N
       | Err x, SnapErr y => if exn_eqb x y then 0%N else 3%N
       | _, _ => 4%N end
+  | RExportAll times els us files err =>
+      let r := export_all times els us in
+      let fix files_eqb (a b : list (string * list (string * list float))) : bool :=
+        match a, b with
+        | [], [] => true
+        | (n, c) :: a', (n', c') :: b' => String.eqb n n' && cols_eqb c c' && files_eqb a' b'
+        | _, _ => false
+        end in
+      if negb (files_eqb (fst r) files) then 5%N else
+      match snd r, err with
+      | None, None => 0%N
+      | Some x, Some y => if exn_eqb x y then 0%N else 6%N
+      | _, _ => 7%N
+      end
   | RExport times el us e =>
       match export times el us, e with
       | Ok cols, ExpOk cols' => if cols_eqb cols cols' then 0%N else 5%N
